@@ -232,6 +232,7 @@ package core
 //@   ensures [only-shrinks] t != nil ==> (forall x *regionItem :: {bthas[t.tree][x]} bthas[t.tree][x] ==> old(bthas[t.tree][x]))
 //@   ensures [removes-the-holder] @index forall x *regionItem :: {bthas[t.tree][x]} bthas[t.tree][x] == (old(bthas[t.tree][x]) && !(holdsKey(x.region, region.meta.StartKey) && x.region.meta.Id == region.meta.Id))
 //@   ensures [count] @index btlen[t.tree] == old(btlen[t.tree]) - ite(result == nil, 0, 1)
+//@   ensures [a-holder-means-non-nil] @index forall x *regionItem :: {old(bthas[t.tree][x])} old(bthas[t.tree][x]) && holdsKey(x.region, region.meta.StartKey) && x.region.meta.Id == region.meta.Id ==> result != nil
 //@   ensures [nil-means-unchanged] @index result == nil ==> (forall x *regionItem :: {bthas[t.tree][x]} bthas[t.tree][x] == old(bthas[t.tree][x]))
 //@   ensures [non-nil-means-removed] @index result != nil ==> typeisptr(result, regionItem) && old(bthas[t.tree][asptr(result, regionItem)]) && !bthas[t.tree][asptr(result, regionItem)]
 //@   modifies t.totalSize, ghost bthas[t.tree], ghost btlen[t.tree]
@@ -342,6 +343,7 @@ package core
 //@   at remove 1 mode index
 //@   ensures [unindexed] forall x *regionItem :: {inTree(r, x)} inTree(r, x) == (old(inTree(r, x)) && !(holdsKey(x.region, region.meta.StartKey) && x.region.meta.Id == region.meta.Id))
 //@   requires [served] @cache cacheOK(r) && cachedRegion(r, region.meta.Id) == region
+//@   at remove 1 after assert [the-served-item-is-taken-out] runmode("cache") ==> r0 != nil && in(r.regions, region.meta.Id)
 //@   ensures [keeps-cache-ok] @cache wfMapVals(r) && wfMapInTree(r) && wfTreeInMap(r) && itemsOK(r.tree.tree) && disjointT(r.tree.tree) && sepRI(r) && countOK(r)
 //@   ensures [tree-count] (forall x *regionItem :: {inTree(r, x)} inTree(r, x) == old(inTree(r, x))) ==> btlen[r.tree.tree] == old(btlen[r.tree.tree])
 //@   ensures [map-count] len(r.regions) == old(len(r.regions)) - ite(old(in(r.regions, region.meta.Id)), 1, 0)
@@ -457,7 +459,8 @@ package core
 //@   ensures [displaced-unindexed] forall x *regionItem :: {old(inTree(r, x))} old(inTree(r, x)) && old(x.region.meta.Id) != region.meta.Id && ovl(old(x.region), region) ==> !inTree(r, x)
 //@   ensures [displaced-unmapped] forall x *regionItem :: {old(inTree(r, x))} old(inTree(r, x)) && old(x.region.meta.Id) != region.meta.Id && ovl(old(x.region), region) ==> !in(r.regions, old(x.region.meta.Id))
 //@   ensures [others-stay] forall x *regionItem :: {old(inTree(r, x))} old(inTree(r, x)) && old(x.region.meta.Id) != region.meta.Id && !ovl(old(x.region), region) ==> inTree(r, x) && x.region == old(x.region)
-//@   ensures [returns-displaced] forall i :: {result[i]} 0 <= i && i < len(result) ==> result[i] != nil && allocated(result[i]) && result[i].meta != nil && ovl(result[i], region)
+//@   ensures [returns-displaced] forall i :: {result[i]} 0 <= i && i < len(result) ==> result[i] != nil && allocated(result[i]) && result[i].meta != nil
+//@   ensures [returned-ones-overlapped] use(post:update#1) forall i :: {result[i]} 0 <= i && i < len(result) ==> ovl(result[i], region)
 //@   at remove 1 after assert [old-item-unindexed] !inTree(r, item) && itemsOK(r.tree.tree) && disjointT(r.tree.tree)
 //@   at remove 1 mode index
 //@   at update 1 mode index
